@@ -271,6 +271,39 @@ def words_case(u, rep, words, label, timeout):
         rep.obligation(oname, BMOD + '::SelectionFunction.__call__', 'post', res, sample='sf(words=W)(data) == sf()(data)[:, :, W]')
         if res['result'] == 'sat': rep.violation(oname, BMOD + '::SelectionFunction.__call__', 'word selection returns something else than that slice of the full output', case, None, *native(case))
 
+def tags_case(u, rep, which, timeout):
+    """the targeted text and the key are the metadata designated by the TAGS, whatever other metadata fields are passed along
+    (Analysis.process hands the selection function every metadata field of the batch, including ones that happen to be called 'data' or 'key')"""
+    fn = BMOD + '::_AttackSelectionFunctionWrapped.__call__'
+    cls, tagarg, deftag = {'aes_first': ('FirstSubBytes', 'plaintext_tag', 'plaintext'), 'aes_last': ('LastSubBytes', 'ciphertext_tag', 'ciphertext')}[which]
+    for custom in (False, True):
+        tag = 'my_text' if custom else deftag; ktag = 'my_key' if custom else 'key'
+        def body():
+            N = core.sym_int('N', 1); data = H.sym_bytes('X', (N, 16), 'uint8'); other = H.sym_bytes('O', (N, 16), 'uint8'); other2 = H.sym_bytes('O2', (N, 16), 'uint8')
+            key = H.sym_bytes('K', (16,), 'uint8'); okey = H.sym_bytes('OK', (16,), 'uint8')
+            L.set_task(stubs=aes_stubs())
+            G = H.sym_bytes('G', (2,), 'uint8')
+            kw = {tagarg: tag, 'key_tag': ktag} if custom else {}
+            sf = getattr(u.amod, cls)(guesses=G, **kw); ref = getattr(u.amod, cls)(guesses=G, **kw)
+            meta = {tag: data, 'data': other, 'foo': other2, ktag: key}
+            if custom: meta[deftag] = other2; meta['key'] = okey
+            out = sf(**meta); exp = ref(**{tag: data})
+            ek = sf.compute_expected_key(**meta); ekr = ref.compute_expected_key(**{ktag: key})
+            return N, out, exp, ek, ekr
+        oname = 'post[aes.%s, %s tags: extra metadata fields (also ones named data / key / %s) do not change hypotheses or expected key]' % (cls, 'custom' if custom else 'default', deftag)
+        case = dict(kind='tags', cls=cls, custom=custom)
+        for p, outc, exc in core.explore(body):
+            if exc is not None:
+                rep.obligation(oname, fn, 'post', dict(result='sat', backend='exec', secs=0), sample=repr(exc)); rep.violation(oname, fn, 'raises %r' % (exc,), case, None, *native(case)); continue
+            N, out, exp, ek, ekr = outc
+            n = z3.Int('n!'); cons = [n >= 0, n < N.z]
+            ok = out.ndim == 3 and exp.ndim == 3 and out.shape[1:] == exp.shape[1:] and tuple(ek.shape) == tuple(ekr.shape)
+            got = [out.at(SInt(n), g, w) for g in range(2) for w in range(16)] + [ek.at(w) for w in range(ek.shape[0])] if ok else []
+            ex_ = [exp.at(SInt(n), g, w) for g in range(2) for w in range(16)] + [ekr.at(w) for w in range(ekr.shape[0])] if ok else []
+            res = dict(result='sat', backend='exec', secs=0) if not ok else (dict(result='unsat', backend='structural', secs=0) if H.structurally_equal(got, ex_, simp=True) else solve.discharge(p.pc + cons, H.eq_all(got, ex_), timeout_ms=timeout))
+            rep.obligation(oname, fn, 'post', res, sample='sf(**all metadata) == sf(tagged field only); expected key from the key_tag field')
+            if res['result'] == 'sat': rep.violation(oname, fn, 'another metadata field overrides the tagged one', case, str(res.get('model'))[:400], *native(case))
+
 def alias_case(u, rep):
     pairs = [(u.adec, u.amod, {'FirstAddRoundKey': 'LastAddRoundKey', 'LastAddRoundKey': 'FirstAddRoundKey', 'FirstSubBytes': 'LastSubBytes', 'LastSubBytes': 'FirstSubBytes', 'DeltaRFirstRounds': 'DeltaRLastRounds'}, 'aes'),
              (u.ddec, u.dmod, DEC_ALIAS, 'des')]
@@ -317,12 +350,14 @@ def main():
     for cls in DES_CLASSES: units.append(('dt', cls))
     wsel = [(3, 'int 3'), ([0, 5, 5, 15], 'list [0,5,5,15]'), (slice(2, 11, 3), 'slice(2,11,3)'), (symnp.from_real(_rnp.array([15, 0, 7], dtype='uint8')), 'array [15,0,7]'), (Ellipsis, 'Ellipsis'), (None, 'None')]
     for k in range(len(wsel)): units.append(('w', k))
+    units += [('tags', 'aes_first'), ('tags', 'aes_last')]
     def work(sub, kind, *args):
         if kind == 'af': aes_formula_case(u, sub, args[0], args[1], args[2], args[3], timeout)
         elif kind == 'at': aes_true_key_case(u, sub, args[0], args[1], timeout)
         elif kind == 'df': des_formula_case(u, sub, args[0], args[1], args[2], args[3], timeout)
         elif kind == 'dt': des_true_key_case(u, sub, args[0], timeout)
         elif kind == 'w': words_case(u, sub, wsel[args[0]][0], wsel[args[0]][1], timeout)
+        elif kind == 'tags': tags_case(u, sub, args[0], timeout)
     P.run_units(rep, work, units)
     alias_case(u, rep); canary(u, rep, timeout)
     rc, o, so, se = R.run_native('props.c07_native', ['bounded', str(seed), a.tier], timeout=1500)
